@@ -222,7 +222,7 @@ func allStrings(alpha []string, n int, f func(s string)) {
 
 func c03Run(c *fx.Ctx) {
 	// (a) the C01 corpus encoded as CBE, and the C02 corpus encoded as CTE
-	o := corpusOpts{structDepth: c.Pick(5, 6), floatStride: c.Pick(32, 4), latlong: 20, arrayFullMax: c.Pick(3, 5), padding: false}
+	o := corpusOpts{refMaxLen: c.Pick(6, 8), structDepth: c.Pick(5, 6), floatStride: c.Pick(32, 4), latlong: 20, arrayFullMax: c.Pick(3, 5), padding: false}
 	var subset [][]byte
 	forEachCorpusDoc(c, o, func(doc []ev.E, cls string) {
 		if _, err := codec.ValidateEvents(doc, nil); err != nil {
